@@ -72,6 +72,8 @@ def sulfuric_acid_density(w, T=None, T0=None, units=None, warn=True):
         kg = units.kilogram
     if T is None:
         T = 298.15 * K
+    if hasattr(w, "rescale"):  # e.g. 50 percent or 500 g/kg
+        w = w.rescale("dimensionless").magnitude
     m3 = m ** 3
     if T0 is None:
         T0 = 273.15 * K
